@@ -461,3 +461,10 @@ impl<T> Drop for Sending<T> {
         }
     }
 }
+
+/// Verification hooks (add-only, compiled only with `--cfg remoc_verif`).
+#[cfg(remoc_verif)]
+#[allow(missing_docs, unused_imports)]
+pub(crate) mod verif_interlock {
+    pub(crate) use super::interlock::{Interlock, Location};
+}
